@@ -16,6 +16,7 @@ NOTES = {
     "C13": "neutralised by fix 1d3fe16 (`ndpoly.values` honours strides); reported by C13 on the pre-fix tree",
     "R4C06": "neutralised by fix 9dba7ee (positions given to `derivative` are resolved through the caller's names); caught by C06 before that fix",
     "R8C09": "neutralised by fix 3180863 (keys are exactly the stored fields for every allocation): the tight allocation the change pickles is harmless now; the defect it exposed is reported by C03 (allocation routes) on the pre-fix tree",
+    "R8C15": "neutralised by fix e868ba7 (tonumpy of a zero polynomial without a stored constant term returns zeros): the conversion the change relies on no longer fails; caught by C15 (disguised-number arguments) before that fix",
     "R6C06": "neutralised by fix 9dba7ee (a negative position is resolved to a name first); caught by C06 before that fix",
 }
 
